@@ -69,8 +69,14 @@ func initProfDB(
 	profDB *profiledb.Default,
 	timeout time.Duration,
 ) (err error) {
-	ctx, cancel := context.WithTimeout(ctx, timeout)
+	ctx, cancel := context.WithCancel(ctx)
 	defer cancel()
+
+	if timeout > 0 {
+		// Zero means no timeout, see backendConfig.Timeout.
+		ctx, cancel = context.WithTimeout(ctx, timeout)
+		defer cancel()
+	}
 
 	mainLogger.InfoContext(ctx, "initial profiledb refresh")
 
